@@ -822,24 +822,77 @@ func c20(c *core.Ctx, r *core.Report) {
 				okF = false
 			}
 		}
-		usesConc := false
+		// the in-creation set: every field of a set-like interface type (or of the concurrent set's own type) is
+		// only ever given a value made by NewConcurrentSets - followed through constructor parameters
 		concT := c.Named("util/list", "ConcurrentSets")
-		for i := 0; st != nil && i < st.NumFields(); i++ {
-			if concT != nil && core.NamedOf(st.Field(i).Type()) == concT {
-				usesConc = true // declared with the concurrent variant's concrete type
+		usesConc := false
+		var fromConc func(v ssa.Value, depth int) bool
+		fromConc = func(v ssa.Value, depth int) bool {
+			if depth > 4 {
+				return false
 			}
-		}
-		for _, fn := range c.Scope {
-			for _, b := range fn.Blocks {
-				for _, in := range b.Instrs {
-					if al, ok := in.(*ssa.Alloc); ok && core.NamedOf(al.Type()) == T {
-						for _, ci := range core.Calls(fn) {
-							if core.IsCallTo(ci.Common(), concSet) {
-								usesConc = true
-							}
+			all := true
+			n := 0
+			for _, o := range core.Origins(v, nil) {
+				n++
+				switch x := o.(type) {
+				case *ssa.Call:
+					if !core.IsCallTo(x.Common(), concSet) {
+						all = false
+					}
+				case *ssa.Parameter:
+					fn := x.Parent()
+					idx := -1
+					for i, p := range fn.Params {
+						if p == x {
+							idx = i
 						}
 					}
+					sites := c.CallSites(func(com *ssa.CallCommon) bool { return core.IsCallTo(com, fn) })
+					if fn.Object() == nil || fn.Object().Exported() || len(c.FuncValueUses(fn)) != 0 || len(sites) == 0 || idx < 0 {
+						all = false
+						break
+					}
+					for _, s := range sites {
+						args := s.Common().Args
+						if idx >= len(args) || !fromConc(args[idx], depth+1) {
+							all = false
+						}
+					}
+				default:
+					if concT == nil || core.NamedOf(o.Type()) != concT {
+						all = false
+					}
 				}
+			}
+			return all && n > 0
+		}
+		for i := 0; st != nil && i < st.NumFields(); i++ {
+			ft := st.Field(i).Type()
+			if concT != nil && core.NamedOf(ft) == concT {
+				usesConc = true // declared with the concurrent variant's concrete type
+				continue
+			}
+			it, isIface := ft.Underlying().(*types.Interface)
+			if !isIface || concT == nil || !types.Implements(types.NewPointer(concT), it) {
+				continue
+			}
+			setLike := false
+			for k := 0; k < it.NumMethods(); k++ {
+				setLike = setLike || it.Method(k).Name() == "Exists"
+			}
+			if !setLike {
+				continue
+			}
+			stores, _ := c.FieldAccesses(T, st.Field(i).Name())
+			ok := len(stores) > 0
+			for _, s := range stores {
+				ok = ok && fromConc(s.Store.Val, 0)
+			}
+			if ok {
+				usesConc = true
+			} else {
+				okF = false
 			}
 		}
 		r.Check(okF && usesConc, "C20.R5", "registry-state:"+T.Obj().Name(), c.Pos(T.Obj().Pos()), "the singleton cache has no plain map field and its in-creation set is the concurrent variant")
